@@ -29,7 +29,7 @@ Print Assumptions C16_refuted.
       tables are the ones regenerated from grammar.go;
    2. asp's 64-bit integer operators give CPython's result under int_safe (no overflow; % with operands of the
       same sign or divisor zero; // with |operands| < 2^53 and a non-zero divisor; never /);
-   3. + on a list whose capacity equals its length allocates a fresh array and writes no existing one;
+   3. + on EVERY list allocates a fresh array with capacity = length and writes no existing one (/repo 7aeabfa);
    4. whole programs `x = <chain over integer literals>`: if the chain is safe and CPython's evaluation of it (tree_val)
       stays within the side conditions of 2, the asp run and the CPython run of the program are equal. *)
 Definition C16_partial_statement : Prop :=
@@ -44,7 +44,7 @@ Definition C16_partial_statement : Prop :=
   /\ (forall (ops : list (item vexpr)) (acc : tree vexpr value), ops_safe ops = true -> py_tree acc ops = asp_tree acc ops)
   /\ (forall o a b, int_safe o a b = true -> asp_int_op o a b = py_int_op o a b)
   /\ (forall (l : slice) (items2 : list value) (st : state),
-        s_cap l = s_len l -> items2 <> [] -> (s_off l + s_len l <= length (arr_of st (s_arr l)))%nat ->
+        (s_off l + s_len l <= length (arr_of st (s_arr l)))%nat ->
         let '(r, st') := list_add Asp l items2 st in
         s_arr r = length (arrays st)
         /\ (forall a, (a < length (arrays st))%nat -> arr_of st' a = arr_of st a)
@@ -60,7 +60,7 @@ Proof.
   exact (conj pure_subset_program_agrees (conj chain_unflagged_agrees
         (conj (@chain_class_none_safe vexpr)
         (conj (@groupings_agree vexpr value)
-        (conj int_ops_agree (conj list_add_full_is_pure int_chain_program_agrees)))))).
+        (conj int_ops_agree (conj list_add_always_fresh int_chain_program_agrees)))))).
 Qed.
 Print Assumptions C16_partial.
 
